@@ -63,8 +63,7 @@ class _Pass:
                 return None
             if len(e.args) == 2 and not (isinstance(e.args[1], ast.Constant) and e.args[1].value is None):
                 return None
-            k = e.args[0]
-            if not (isinstance(k, ast.Name) and (stores.get(k.id, 0) == 1 or (k.id in params and stores.get(k.id, 0) == 0))):
+            if any(isinstance(y, (ast.Yield, ast.YieldFrom, ast.Await, ast.NamedExpr, ast.Lambda)) for y in ast.walk(e.args[0])):
                 return None
             t = e.func.value
             if isinstance(t, ast.Name) and t.id in mod_tables and stores.get(t.id, 0) == 0:
@@ -123,10 +122,15 @@ class _Pass:
             return node
 
         repl: dict[int, ast.stmt] = {}
+        pre: dict[int, ast.stmt] = {}
         for h, (asg, (rows, is_cls, tkey)) in cands.items():
-            kname = asg.value.args[0].id
             self.count += 1
             used.add(tkey)
+            # the key is evaluated once, where the look-up stood
+            kname = f"_disp{self.count}_key"
+            keep = ast.copy_location(ast.Assign(targets=[ast.Name(id=kname, ctx=ast.Store())], value=asg.value.args[0], type_comment=None), asg)
+            ast.fix_missing_locations(keep)
+            pre[id(asg)] = keep
             repl[id(asg)] = chain(kname, rows,
                                   lambda key, fname, h=h: [ast.Assign(targets=[ast.Name(id=h, ctx=ast.Store())], value=ast.Constant(value=f"<handler {fname}>"), type_comment=None)],
                                   [ast.Assign(targets=[ast.Name(id=h, ctx=ast.Store())], value=ast.Constant(value=None), type_comment=None)], asg)
@@ -155,6 +159,8 @@ class _Pass:
                         setattr(st, f, rewrite(b))
                 for hd in getattr(st, "handlers", []) or []:
                     hd.body = rewrite(hd.body)
+                if id(st) in pre:
+                    out.append(pre[id(st)])
                 out.append(repl.get(id(st), st))
             return out
 
